@@ -24,6 +24,10 @@ TV_HAS(has_buffer_, std::declval<T&>().buffer_)
 TV_HAS(has_shape_, std::declval<T&>().shape_)
 TV_HAS(has_data_, std::declval<T&>().data_)
 TV_HAS(has_empty, std::declval<T&>()._empty)
+TV_HAS(has_strides_, std::declval<T&>().strides_)
+TV_HAS(has_offset_, std::declval<T&>().offset_)
+TV_HAS(has_a, std::declval<T&>().a)
+TV_HAS(has_ok, std::declval<T&>().ok)
 #undef TV_HAS
 
 template <class T> struct dependent_false : std::false_type {};
@@ -64,6 +68,14 @@ template <class R, class C> bool eq(const R& real, const C& raw)
     if constexpr (has_e2<C>::value) ok = ok && eq(std::get<2>(real), raw.e2);
     if constexpr (has_e3<C>::value) ok = ok && eq(std::get<3>(real), raw.e3);
     return ok;
+  } else if constexpr (has_a<C>::value && has_ok<C>::value) {            // C20 result pair {object a; bool ok}
+    return eq(real.a, raw.a) && eq(real.ok, raw.ok);
+  } else if constexpr (has_data_<C>::value && has_shape_<C>::value && has_strides_<C>::value && has_offset_<C>::value) {  // generic ndarray_t state
+    return eq(real.data_, raw.data_) && eq(real.shape_, raw.shape_) && eq(real.strides_, raw.strides_)
+        && eq(real.offset_.shape_, raw.offset_.shape_) && eq(real.offset_.strides_, raw.offset_.strides_);
+  } else if constexpr (has_buffer_<C>::value && has_shape_<C>::value && has_strides_<C>::value
+                       && (sizeof(std::declval<C&>().shape_) > sizeof(unsigned long))) {             // hybrid_ndarray of rank > 1: whole state
+    return eq(real.buffer_, raw.buffer_) && eq(real.shape_, raw.shape_) && eq(real.strides_, raw.strides_);
   } else if constexpr (has_buffer_<C>::value && has_shape_<C>::value) {  // 1-d hybrid_ndarray used as index array
     unsigned long n = raw.shape_._M_elems[0];
     if ((unsigned long)nmtools::len(real) != n) return false;
